@@ -99,6 +99,41 @@ class Ctx:
         self.log("MC %-40s %-28s %8d gen %8d distinct %5.1fs" % (cfg, got, gen, dist, time.time() - t))
         return rec, out
 
+    def lockmc(self, progs_path, k, expect="ok", timeout=900, label=None):
+        """Runs Locks.tla on a file of lock programs; returns (got, chosen program indexes of the counterexample or None)."""
+        wd = tempfile.mkdtemp(prefix="lk-", dir=self.scratch)
+        for f in ("Locks.tla", "Locks_k%d.cfg" % k):
+            shutil.copy(os.path.join(self.specdir, f), wd)
+        shutil.copy(progs_path, os.path.join(wd, "progs.json"))
+        t = time.time()
+        rc, out = self._tlc("Locks.tla", "Locks_k%d.cfg" % k, wd, 8, timeout)
+        m = re.search(r"(\d+) states generated, (\d+) distinct states found", out)
+        gen, dist = (int(m.group(1)), int(m.group(2))) if m else (0, 0)
+        viol = re.search(r"Invariant (\w+) is violated", out)
+        ok = "No error has been found" in out
+        got = "ok" if ok else ("violates:" + viol.group(1) if viol else "error")
+        chosen = None
+        if viol:
+            cm = re.findall(r"chosen = <<([0-9, ]+)>>", out)
+            if cm:
+                chosen = [int(x) for x in cm[-1].split(",")]
+        name = label or os.path.basename(progs_path)
+        self.mc_runs.append({"cfg": "Locks_k%d.cfg on %s" % (k, name), "expect": expect, "got": got, "generated": gen,
+                             "distinct": dist, "wall_s": round(time.time() - t, 1)})
+        if rc == 124:
+            self.undecided.append("TLC timeout on the lock programs (%s, K=%d)" % (name, k))
+        elif got == "error":
+            self.undecided.append("TLC error on the lock programs (%s)" % name)
+            sys.stdout.write(out[-2000:])
+        elif expect != "ok" and got != expect:
+            self.undecided.append("lock model run %s: expected %s, got %s" % (name, expect, got))
+        if expect == "ok" and got == "ok":
+            self.states += dist
+            self.transitions += gen
+        self.log("LK  %-40s %-28s %8d gen %8d distinct %5.1fs" % ("K=%d %s" % (k, name), got, gen, dist, time.time() - t))
+        shutil.rmtree(wd, ignore_errors=True)
+        return got, chosen, out
+
     # ------------------------------------------------------------------- gen
     def gen(self, module, cfg, timeout=600, simulate=None, workers=1):
         """Runs a generator configuration; returns the list of histories (parsed JSON)."""
@@ -150,6 +185,23 @@ class Ctx:
             except Exception:
                 res = None
         self.log("GO  %-40s rc=%d %5.1fs" % (pkg + ":" + run, p.returncode, time.time() - t))
+        races = re.findall(r"WARNING: DATA RACE\n(.*?)\n==================", p.stdout, re.S) if race else []
+        if races:
+            # the race detector spoke: each distinct report whose stacks lie in the repository is a violation
+            seen = set()
+            for blk in races:
+                frames = re.findall(r"(/repo/[\w./-]+\.go:\d+)", blk)
+                if not frames:
+                    continue
+                key = frames[0]
+                if key in seen:
+                    continue
+                seen.add(key)
+                self.violation("race:" + key.replace("/repo/", ""), "data race reported by the race detector:\n" + blk[:1500],
+                               {"driver_out": out})
+            if res is not None:
+                self.absorb(res, out)
+                return out, res
         if p.returncode != 0 or res is None:
             tail = p.stdout[-4000:]
             sys.stdout.write(tail)
